@@ -20,6 +20,8 @@ clauses (names as they appear in `margins` / violations)
   Ep-sp / F-sp        stored Ep(s), /forces(s) vs an independent cold single point at /coordinates(s):
                       1e-8 + 20 eps eV, 1e-6 + 2e3 eps eV/A (C04 algebra)                          (e)
   steps-rows          every stream has rows 0..N exactly                                            (e)
+                      batches are written with output selections molid in {[1], [1,0], [2,0], all}: every row clause is
+                      evaluated per FILE md.<mol>.h5 against that molecule's own velocities / single point
   vv-x / vv-v         documented velocity-Verlet recurrences between consecutive stored rows with the
                       CODATA acceleration constant: relative 1e-6 of the largest increment      (aux of c/e)
   const-*             KE*ACC = 1, KE*VEL^2*TEMP = 1 (1e-6), each constant within 1e-6 of CODATA 2018  (f)
@@ -43,7 +45,7 @@ ASSUMPTIONS = ["float64 CPU, scf_eps 1e-10 so that SCF noise (<=2e-7 eV/A in for
                "velocity-Verlet recurrence clause relies on docs/source/bomd.rst naming the integrator",
                "atomic masses of the shipped table are the property's given"]
 REQUIRED_MONITORS = ["md_runs", "rows_checked", "order_ratios", "energy_ratios", "reversal_pairs", "single_points",
-                     "constants_checked"]
+                     "constants_checked", "molid_subset_files"]
 CASE_TIMEOUT = 1500.0
 BUDGET_S = {"quick": 200, "thorough": 1700}
 
@@ -79,14 +81,14 @@ def gen_cases(tier, seed):
     if tier == "quick":
         fam = [
             dict(mols=["H2O"], method="AM1", dts=[0.4, 0.2, 0.1, 0.05], t_end=4.0, reuse_P=True, remove_com=None),
-            dict(mols=["NH3", "CH2O"], method="AM1", dts=[0.4, 0.2, 0.1], t_end=4.0, reuse_P=True, remove_com=None),
+            dict(mols=["NH3", "CH2O"], method="AM1", dts=[0.4, 0.2, 0.1], t_end=4.0, reuse_P=True, remove_com=None, molid=[1, 0]),
             dict(mols=["H2O"], method="PM3", dts=[0.2, 0.1, 0.05], t_end=4.0, reuse_P=False, remove_com=["angular", 3]),
             dict(mols=["HCN"], method="MNDO", dts=[0.4, 0.2, 0.1], t_end=4.0, reuse_P=True, remove_com=["linear", 1]),
         ]
         rev = [dict(mols=["H2O"], method="AM1", dt=0.2, n=20, reuse_P=True, remove_com=None),
                dict(mols=["CH4", "H2O"], method="PM3", dt=0.1, n=16, reuse_P=False, remove_com=["linear", 2])]
-        fresh = [dict(mols=["H2O", "CH4"], method="AM1", dt=0.2, n=12, remove_com=rc, reuse_P=True)
-                 for rc in (None, ["linear", 1], ["angular", 2])]
+        fresh = [dict(mols=["H2O", "CH4", "NH3"][:nm], method="AM1", dt=0.2, n=12, remove_com=rc, reuse_P=True, molid=mi)
+                 for rc, nm, mi in ((None, 2, [1]), (["linear", 1], 2, None), (["angular", 2], 3, [2, 0]))]
         fresh.append(dict(mols=["CO2"], method="AM1", dt=0.2, n=10, remove_com=["angular", 1], reuse_P=False))
     else:
         fam = []
@@ -97,6 +99,8 @@ def gen_cases(tier, seed):
             for rp, rc in variants:
                 fam.append(dict(mols=mols, method=method, dts=[0.4, 0.2, 0.1, 0.05], t_end=8.0, reuse_P=rp,
                                 remove_com=rc))
+                if len(mols) > 1:
+                    fam[-1]["molid"] = [[1], [1, 0], [2, 0], [2, 1, 0]][len(fam) % 4 if len(mols) > 2 else len(fam) % 2]
         fam.append(dict(mols=["CH2O"], method="AM1", dts=[0.2, 0.1, 0.05], t_end=4.0, reuse_P=True, remove_com=None,
                         excited=True))
         fam.append(dict(mols=["H2O"], method="AM1", dts=[0.2, 0.1, 0.05], t_end=4.0, reuse_P=False, remove_com=None,
@@ -114,6 +118,8 @@ def gen_cases(tier, seed):
             for rc in (None, ["linear", 1], ["linear", 4], ["angular", 1], ["angular", 3]):
                 fresh.append(dict(mols=mols, method=method, dt=[0.5, 0.2, 1.0][len(fresh) % 3], n=16, remove_com=rc,
                                   reuse_P=bool(len(fresh) % 2)))
+                if len(mols) > 1 and len(fresh) % 3:
+                    fresh[-1]["molid"] = [[1], [1, 0], [2, 0]][len(fresh) % 3 if len(mols) > 2 else len(fresh) % 2]
     for f in fam:
         f.update(kind="family", T=300.0, geom_seed=s())
         cases.append(f)
@@ -311,7 +317,7 @@ def _family(case):
     S, C, V, Zs = _system(case)
     sett = _settings(case)
     rc = tuple(case["remove_com"]) if case["remove_com"] else None
-    molid = list(range(len(S)))
+    molid = list(case.get("molid") or range(len(S)))  # output selection: not necessarily the prefix list [0..n-1]
     recs = {}
     with env.Scratch("c08") as d:
         for dt in case["dts"]:
@@ -381,8 +387,11 @@ def _family(case):
                     dict(det, drift=[float(devc[-t:].mean() - devc[:t].mean()), float(devf[-t:].mean() - devf[:t].mean())]))
             obs.setdefault("resid_frac", {})["mol%d/%g" % (k, dtc)] = [float("%.3g" % (np.abs(r).max() / scale)),
                                                                       float("%.3g" % (abs(B) / scale))]
-        acc.cells.append("family/%s/%s/reuse%d/rc-%s%s" % (case["method"], "+".join(case["mols"]), case["reuse_P"],
-                                                           rc[0] if rc else "none", "/S1" if case.get("excited") else ""))
+        acc.cells.append("family/%s/%s/reuse%d/rc-%s%s%s" % (case["method"], "+".join(case["mols"]), case["reuse_P"],
+                                                             rc[0] if rc else "none", "/S1" if case.get("excited") else "",
+                                                             "/molid%s" % "".join(map(str, molid)) if case.get("molid") else ""))
+        if case.get("molid"):
+            acc.mon["molid_subset_files"] += 1
     return acc.result(good > 0, obs)
 
 
@@ -444,7 +453,7 @@ def _fresh(case):
     S, C, V, Zs = _system(case)
     sett = _settings(case)
     rc = tuple(case["remove_com"]) if case["remove_com"] else None
-    molid = list(range(len(S)))
+    molid = list(case.get("molid") or range(len(S)))
     n, dt = case["n"], case["dt"]
     with env.Scratch("c08") as d:
         r = md.run_md("basic", S, C, sett, dt, case["T"], n, d + "/fr", molid=molid, velocities=None,
@@ -461,8 +470,11 @@ def _fresh(case):
         good += 1
         _check_sp(acc, r["h5"][k], Zr, sett, sorted({0, n}), "mol%d" % k)
         obs["T0"].append(float(r["h5"][k]["T"][0]))
-        acc.cells.append("fresh/%s/%s/reuse%d/rc-%s" % (case["method"], "+".join(case["mols"]), case["reuse_P"],
-                                                        rc[0] if rc else "none"))
+        acc.cells.append("fresh/%s/%s/reuse%d/rc-%s%s" % (case["method"], "+".join(case["mols"]), case["reuse_P"],
+                                                          rc[0] if rc else "none",
+                                                          "/molid%s" % "".join(map(str, molid)) if case.get("molid") else ""))
+        if case.get("molid"):
+            acc.mon["molid_subset_files"] += 1
     return acc.result(good > 0, obs)
 
 
